@@ -114,7 +114,7 @@ StepOK(H, N) ==
 \* ---- a finished and drained execution -----------------------------------
 Count(H, P(_)) == Cardinality({q \in DOMAIN H : P(H[q])})
 
-QuiesceOK(H, N) ==
+QuiesceRepliesOK(H, N) ==
   \* one OK per EVENT, one COUNT per COUNT
   /\ \A q \in DOMAIN H : Is(H[q], "csnd", "EVENT") =>
         Count(H, LAMBDA e : Is(e, "cgot", "OK") /\ e.m.id = H[q].m.id)
@@ -128,6 +128,9 @@ QuiesceOK(H, N) ==
         ((\A i \in 1..N : \E z \in DOMAIN H : Is(H[z], "emits", "EOSE") /\ H[z].ch = i /\ H[z].m.sub = s /\ ChInst(H, z, i, s) = k)
           /\ ~ \E z \in DOMAIN H : Is(H[z], "csnd", "CLOSE") /\ H[z].m.sub = s /\ CInst(H, z, s) = k)
         => EosePos(H, s, k) # {}
+
+\* live events after the EOSE (children whose emissions are flushed by the final sentinel)
+QuiesceLiveOK(H, N) ==
   \* after the EOSE: every event a child emits (emission started after the client got the
   \* EOSE; the client neither closes nor re-issues the subscription id afterwards, which
   \* would race with the delivery) is forwarded, in that child's order
@@ -141,4 +144,6 @@ QuiesceOK(H, N) ==
              IN /\ \A q \in must : gotp(q) # {}
                 /\ \A q1, q2 \in must : q1 < q2 =>
                      (\E g1 \in gotp(q1), g2 \in gotp(q2) : g1 < g2)
+
+QuiesceOK(H, N) == QuiesceRepliesOK(H, N) /\ QuiesceLiveOK(H, N)
 =============================================================================
